@@ -340,6 +340,86 @@ Definition setitem (c : carrier) (i j : idx) (val : C) : carrier * option err :=
   | (ul, vl, e) => (mkcar ul vl (ulen c) (vlen c) (cplx c), e)
   end.
 
+(* ---- contract(mat, rows, cols):  y[p] = sum_k u_k[rows_p]^T . B_p . v_k[cols_p]
+   mat:  None | a 2-d matrix (dense or sparse: same arithmetic) | a batch of matrices with batch shape bs
+   rows / cols: None | a 1-d index array | a batch of index vectors with batch shape bs *)
+Record cmat := mkcmat { cm_bs : option (list Z); cm_nr : Z; cm_nc : Z; cm_mats : list matr; cm_f : bool }.
+Record cidx := mkcidx { ci_bs : option (list Z); ci_n : Z; ci_rows : list (list Z) }.
+
+Fixpoint zl_eqb (a b : list Z) : bool :=
+  match a, b with
+  | [], [] => true
+  | x :: a', y :: b' => (x =? y) && zl_eqb a' b'
+  | _, _ => false
+  end.
+Definition zprod (l : list Z) : Z := fold_right Z.mul 1 l.
+
+(* batchsize: from the matrix, else from rows, else from cols; later ones must agree (ValueError) *)
+Definition batch_join (b : option (list Z)) (ix : option cidx) : res (option (list Z)) :=
+  match ix with
+  | Some i => match ci_bs i with
+              | Some bi => match b with
+                           | None => Ok (Some bi)
+                           | Some bb => if zl_eqb bi bb then Ok b else Er ValueE
+                           end
+              | None => Ok b
+              end
+  | None => Ok b
+  end.
+Definition batch_shape (mat : option cmat) (rows cols : option cidx) : res (option (list Z)) :=
+  match batch_join (match mat with Some m => cm_bs m | None => None end) rows with
+  | Er e => Er e
+  | Ok b1 => batch_join b1 cols
+  end.
+
+(* ui[rows] for batch item p *)
+Definition sel_idx (ix : option cidx) (p : nat) (u : vect) : res vect :=
+  match ix with
+  | None => Ok u
+  | Some i =>
+    let l := match ci_bs i with None => nth 0%nat (ci_rows i) [] | Some _ => nth p (ci_rows i) [] end in
+    match map_res (norm_index (zlen u)) l with Ok ps => Ok (vtake u ps) | Er e => Er e end
+  end.
+Definition sel_mat (m : cmat) (p : nat) : matr :=
+  match cm_bs m with None => nth 0%nat (cm_mats m) [] | Some _ => nth p (cm_mats m) [] end.
+
+(* uarg @ varg   or   uarg @ mat @ varg   (numpy raises ValueError on non-conforming lengths) *)
+Definition form1 (mat : option cmat) (ua va : vect) (p : nat) : res C :=
+  match mat with
+  | None => if zlen ua =? zlen va then Ok (vdot ua va) else Er ValueE
+  | Some m => if (zlen ua =? cm_nr m) && (cm_nc m =? zlen va)
+              then Ok (vdot (vecmat ua (sel_mat m p) (Z.to_nat (cm_nc m))) va) else Er ValueE
+  end.
+
+(* the contribution of one dyad to every batch item: first ui[rows], then vi[cols], then the products *)
+Definition dyad_forms (mat : option cmat) (rows cols : option cidx) (P : nat) (u v : vec) : res vect :=
+  match map_res (fun p => sel_idx rows p (vd u)) (seq 0 P) with
+  | Er e => Er e
+  | Ok uas =>
+    match map_res (fun p => sel_idx cols p (vd v)) (seq 0 P) with
+    | Er e => Er e
+    | Ok vas => map_res (fun t => form1 mat (fst (fst t)) (snd (fst t)) (snd t)) (combine (combine uas vas) (seq 0 P))
+    end
+  end.
+
+Definition contract (c : carrier) (mat : option cmat) (rows cols : option cidx) : res out :=
+  let fmat := match mat with Some m => cm_f m | None => false end in
+  match batch_shape mat rows cols with
+  | Er e => Er e
+  | Ok None =>           (* val = 0.0; val += uarg @ mat @ varg : a scalar whose type follows the summands *)
+    match map_res (fun q => dyad_forms mat rows cols 1 (fst q) (snd q)) (combine (us c) (vs c)) with
+    | Er e => Er e
+    | Ok terms => Ok (OScal (csum (map (fun t => vget t 0) terms))
+                            (existsb (fun q => vf (fst q) || vf (snd q) || fmat) (combine (us c) (vs c))))
+    end
+  | Ok (Some bs) =>      (* val = zeros(batchsize, result_type(mat, self.dtype)); val += einsum(...) *)
+    let P := Z.to_nat (zprod bs) in
+    match map_res (fun q => dyad_forms mat rows cols P (fst q) (snd q)) (combine (us c) (vs c)) with
+    | Er e => Er e
+    | Ok terms => Ok (OBatch bs (fold_left vadd terms (vzeros P)) (fmat || cplx c))
+    end
+  end.
+
 (* ================================================================== Part 3: programs over a store of carriers *)
 Inductive unop := UCopy | UPos | UNeg | UTr | UConj | UReal | UImag.
 Inductive binop := BAdd | BRadd | BSub | BRsub | BMatmul | BRmatmul | BDot.
@@ -359,7 +439,8 @@ Inductive op :=
 | OTodense (a : nat)
 | ODiag (a : nat) (k : Z)
 | OGet (dst a : nat) (i j : idx)                         (* store[a][i, j]  (a carrier result goes to dst) *)
-| OSet (tgt : nat) (i j : idx) (v : C).                  (* store[tgt][i, j] = v *)
+| OSet (tgt : nat) (i j : idx) (v : C)                   (* store[tgt][i, j] = v *)
+| OContract (a : nat) (mat : option cmat) (rows cols : option cidx).     (* store[a].contract(mat, rows, cols) *)
 
 Definition store := list carrier.
 
@@ -443,6 +524,8 @@ Definition step (o : op) (s : store) : store * res out :=
     match get_slot s a with Ok c => bind_out s dst (getitem c i j) | Er e => (s, Er e) end
   | OSet tgt i j v =>
     match get_slot s tgt with Ok c => bind_inplace s tgt (setitem c i j v) | Er e => (s, Er e) end
+  | OContract a mat rows cols =>
+    match get_slot s a with Ok c => (s, contract c mat rows cols) | Er e => (s, Er e) end
   end.
 
 Fixpoint run (p : list op) (s : store) : store * list (res out) :=
